@@ -35,7 +35,7 @@ func C14(c *core.Ctx) {
 	fine := setFine(c)
 	// (a) every call sequence up to a bound, with factories that fail on chosen calls
 	if !fine {
-		historySweep(c, "c14", lifecycleAlphabet, c.N(3, 5), c.N(1000, 8000), c.N(8, 10))
+		historySweep(c, "c14", lifecycleAlphabet, c.N(3, 4), c.N(1000, 20000), c.N(8, 12)) // 12 letters: 12^4 x 6 configurations exhaustively in the thorough tier
 	}
 	// (b) concurrent mixes under the deterministic scheduler (and the race detector)
 	type conf struct {
